@@ -109,6 +109,10 @@ func (g *TokenGenerator) DecodeToken(encrypted []byte) (*Token, error) {
 		encodedRemoteAddr: t.RemoteAddr,
 	}
 	if t.IsRetryToken {
+		// protocol.ParseConnectionID panics on connection IDs longer than 20 bytes.
+		if len(t.OriginalDestConnectionID) > protocol.MaxConnIDLen || len(t.RetrySrcConnectionID) > protocol.MaxConnIDLen {
+			return nil, fmt.Errorf("token contains an invalid connection ID (%d, %d bytes)", len(t.OriginalDestConnectionID), len(t.RetrySrcConnectionID))
+		}
 		token.OriginalDestConnectionID = protocol.ParseConnectionID(t.OriginalDestConnectionID)
 		token.RetrySrcConnectionID = protocol.ParseConnectionID(t.RetrySrcConnectionID)
 	} else {
